@@ -90,6 +90,8 @@ def make_feeds(gb: GB, rng: np.random.Generator):
             a = rng.standard_normal(shape).astype(NP[dt])
         elif kind == "small":
             a = (rng.standard_normal(shape) * 0.25).astype(NP[dt])
+        elif kind == "tiny":  # variance ~1e-3: a wrong / dropped epsilon changes a normalisation visibly
+            a = (rng.standard_normal(shape) * 0.03).astype(NP[dt])
         elif kind == "mask":  # additive attention mask: 0 or a large negative number, never a fully masked row
             a = np.where(rng.random(shape) < 0.3, -1000.0, 0.0)
             a[..., 0] = 0.0
@@ -123,10 +125,10 @@ def build_rms(c):
     g = GB("rms")
     dt = c["dt"]
     B, S, D = c["B"], c["S"], c["D"]
-    x = g.inp("x", dt, [B, S, D])
+    x = g.inp("x", dt, [B, S, D], kind="tiny")
     outs = []
     if c.get("skip", "none") != "none":
-        sk = g.inp("skip", dt, _skip_shape(c))
+        sk = g.inp("skip", dt, _skip_shape(c), kind="tiny")
         if c["bias"] != "none":
             bias = g.const(_vec(D, dt, 3), "bias")
         if c["bias"] == "pre":
@@ -166,7 +168,11 @@ def _skip_shape(c):
 
 def _vec(n, dt, salt):
     r = np.random.default_rng(1000 + salt)
-    return (1.0 + 0.1 * r.standard_normal(n)).astype(NP[dt]) if salt == 1 else (0.1 * r.standard_normal(n)).astype(NP[dt])
+    if salt == 1:  # gamma
+        return (1.0 + 0.1 * r.standard_normal(n)).astype(NP[dt])
+    if salt == 3:  # additive bias in front of a normalisation: same scale as the data
+        return (0.03 * r.standard_normal(n)).astype(NP[dt])
+    return (0.1 * r.standard_normal(n)).astype(NP[dt])
 
 
 # =================================================================================================
@@ -178,8 +184,8 @@ def build_skipln(c):
     g = GB("skipln")
     dt = c["dt"]
     B, S, D = c["B"], c["S"], c["D"]
-    x = g.inp("x", dt, [B, S, D])
-    sk = g.inp("skip", dt, _skip_shape(c))
+    x = g.inp("x", dt, [B, S, D], kind="tiny")
+    sk = g.inp("skip", dt, _skip_shape(c), kind="tiny")
     bias = g.const(_vec(D, dt, 3), "bias") if c["bias"] != "none" else None
 
     def addb(t):
@@ -1312,7 +1318,7 @@ def run(ctx: core.Ctx):
     # ---- pattern families
     groups = {}
     bycfg = {}
-    for c in sorted(cases, key=lambda c: json.dumps(c, sort_keys=True)):
+    for c in sorted(cases, key=lambda c: (json.dumps(c["cfg"], sort_keys=True), c["mode"])):
         k = json.dumps(c["cfg"], sort_keys=True)
         if k not in bycfg:
             bycfg[k] = (c["cfg"], [])
